@@ -373,6 +373,14 @@ func (m *Machine) nativeStringFn(s *State, f *Frame, x *ssa.Call, name string, a
 		id := s.alloc(arr)
 		f.env[x] = SliceV{obj: id, len: len(parts), cap: len(parts)}
 		return true
+	case "strings.Count":
+		a, ok1 := str(0)
+		b, ok2 := str(1)
+		if !ok1 || !ok2 {
+			return false
+		}
+		f.env[x] = Sc{c.BV(uint64(strings.Count(a, b)), 64)}
+		return true
 	case "strings.Index", "strings.LastIndex":
 		a, ok1 := str(0)
 		b, ok2 := str(1)
